@@ -289,6 +289,10 @@ class UAIReader(object):
 
         elif self.network_type == "MARKOV":
             model = MarkovNetwork(self.edges)
+            # Variables that occur only in single-variable functions have no edges.
+            model.add_nodes_from(
+                [var for var in self.variables if var not in model.nodes()]
+            )
 
             factors = []
             for table in self.tables:
